@@ -232,6 +232,57 @@ class Flow:
                     out.add(("other", pt))
         return out, seen
 
+    def reaching_defs(self, local, pt):
+        """whole definitions of `local` that may reach point pt (no other whole definition of it in between)"""
+        ds = [d for d in self.body.defs.get(local, []) if d[1] in ("assign", "call", "arg")]
+        if len(ds) <= 1:
+            return ds
+        pts = {d[0] for d in ds}
+        out = []
+        for d in ds:
+            start = [entry(self.body)] if d[1] == "arg" else after(self.body, d[0], label="normal")
+            r = reach(self.body, start, avoid=pts - {d[0]} if d[1] != "arg" else pts)
+            if pt in r or pt in start:
+                out.append(d)
+        return out
+
+    def roots_at(self, local, pt, _seen=None):
+        """like roots(), but flow-sensitive along plain copies: at each step only the definitions that reach the use are followed"""
+        seen = _seen if _seen is not None else set()
+        if (local, pt) in seen or len(seen) > 200:
+            return set()
+        seen.add((local, pt))
+        out = set()
+        for pt0, kind, data in self.reaching_defs(local, pt):
+            if kind == "arg":
+                out.add(("arg", data))
+            elif kind == "call":
+                if is_view(data) and data.args and op_root(data.args[0]) is not None:
+                    out |= self.roots_at(op_root(data.args[0]), pt0, seen)
+                else:
+                    out.add(("call", data.b))
+            else:
+                rv = data["rv"]
+                nxt = []
+                if "use" in rv or "cast" in rv:
+                    r = op_root(rv.get("use") or rv.get("cast"))
+                    if r is not None:
+                        nxt.append(r)
+                    else:
+                        out.add(("const", (rv.get("use") or rv.get("cast")).get("const")))
+                elif "ref" in rv or "rawptr" in rv:
+                    nxt.append((rv.get("ref") or rv.get("rawptr"))["local"])
+                elif "agg" in rv:
+                    out.add(("agg", pt0))
+                    nxt += [op_root(o) for o in rv["ops"] if op_root(o) is not None]
+                elif "discr" in rv:
+                    nxt.append(rv["discr"]["local"])
+                else:
+                    out.add(("other", pt0))
+                for n in nxt:
+                    out |= self.roots_at(n, pt0, seen)
+        return out
+
     def closure_locals(self, local):
         """all locals from which `local` may derive by copy/ref/view/field (including itself)"""
         return self.roots(local)[1]
